@@ -264,7 +264,16 @@ func runC13(w *World, pi interface{}) {
 	if ch != nil {
 		ok := w.Eventually(drain, func() bool { return ch.State() == wantState })
 		if !ok && (termErr == nil || p.Term >= 1) {
-			w.Violate("C13.client-did-not-reach-terminal-state", sig("state="+string(ch.State())), "after %s (error: %v) the client channel is in state %s, expected %s", termNames[p.Term], termErr, ch.State(), wantState)
+			what := "state=" + string(ch.State())
+			detail := ""
+			if p.Term == 4 && len(p.S2C) > 0 && maxInt(p.CliDelay) >= 100 {
+				// Server.Close gives every session one second to take its finished envelope; a client
+				// whose consumer needs longer than that for what is queued ahead of it is a known,
+				// recorded limitation (known_findings.json), kept apart from every other way to get here
+				what += " slow-consumer-vs-1s-finish-budget"
+				detail = fmt.Sprintf(" (the client's consumer takes up to %d ms per envelope and server-to-client traffic was in flight: Server.Close allows each session 1 s to take its finished envelope)", maxInt(p.CliDelay))
+			}
+			w.Violate("C13.client-did-not-reach-terminal-state", sig(what), "after %s (error: %v) the client channel is in state %s, expected %s%s", termNames[p.Term], termErr, ch.State(), wantState, detail)
 		}
 		select {
 		case <-ch.RcvDone():
@@ -367,4 +376,14 @@ func init() {
 			"0-2 sender tasks per direction with traffic in flight, slow handlers/consumers, client consuming through a mux or four stream readers, benign link faults); oracle: terminating call returns and disconnects the initiator, peer reaches the terminal state, " +
 			"receiver-done and streams close and consumers return within 30 s, Finished fires once, after both sides closed no session goroutine and no open connection end remains; goroutine panics are violations; non-trivial = session established; distinct = distinct (plan JSON, event-log hash)",
 	})
+}
+
+func maxInt(xs []int) int {
+	m := 0
+	for _, x := range xs {
+		if x > m {
+			m = x
+		}
+	}
+	return m
 }
